@@ -9,6 +9,8 @@
 //!   handle); leading options R<ms>, B<baud>[.<data>.<parity>.<stop>.<flow>]
 //! pty cli <script>              -> req=<hex;…> res=<result;…> port=<PortState,…>
 //!   script steps: q<kind>.<unit>.<timeout ms>.<a>.<b> | a<hex> | a- | ~<ms> | E | D; same options
+//! pty port r<min ms>.<max ms> <script> -> <PortState,…>   (life cycle of the client channel task)
+//!   script steps: f | o | x | E | D | S | ~<ms>; the device path is a symbolic link to the slave
 //!
 //! For chunks that hold whole frames the output of `pty srv <units> <script>` equals that of
 //! `srv r d000 - <units> <script>` without its ` end=…` suffix. See PROTOCOL.md, section "pty".
@@ -557,10 +559,256 @@ async fn run_cli(tok: &[&str]) -> String {
     out
 }
 
+/// listener of the `pty port` suite: every announcement is handed to the harness together with a
+/// release handle; the task stays inside `update(..)` until the harness lets it go (lock step, like
+/// the gate of the `life` suite), so no step of a script depends on how fast either side runs
+struct PortGate {
+    tx: tokio::sync::mpsc::UnboundedSender<(PortState, tokio::sync::oneshot::Sender<()>)>,
+}
+
+impl Listener<PortState> for PortGate {
+    fn update(&mut self, value: PortState) -> MaybeAsync<()> {
+        let (rel_tx, rel_rx) = tokio::sync::oneshot::channel();
+        let _ = self.tx.send((value, rel_tx));
+        MaybeAsync::asynchronous(async move {
+            let _ = rel_rx.await;
+        })
+    }
+}
+
+/// how long an announcement that must come may take (the longest delay of a case is < 1 s)
+const PORT_WAIT_MS: u64 = 4000;
+
+static PORT_CASE: std::sync::atomic::AtomicUsize = std::sync::atomic::AtomicUsize::new(0);
+
+/// the observer's side of one `pty port` case
+struct PortCase {
+    rx: tokio::sync::mpsc::UnboundedReceiver<(PortState, tokio::sync::oneshot::Sender<()>)>,
+    /// everything announced so far, in order
+    seen: Vec<String>,
+    /// the task is held inside `update(Wait(_))`: its delay starts when it is released
+    held: Option<tokio::sync::oneshot::Sender<()>>,
+    last: Option<PortState>,
+    /// never expected; visible in the diff
+    notes: Vec<String>,
+    /// an announcement that had to come did not: the rest of the script is skipped
+    stuck: bool,
+}
+
+impl PortCase {
+    fn release(&mut self) {
+        if let Some(rel) = self.held.take() {
+            let _ = rel.send(());
+        }
+    }
+
+    /// records one announcement; a `Wait` keeps the task held, everything else lets it run on
+    /// (after `Disabled` / `Open` the task blocks by itself until the next event).
+    /// The descriptor check: the port is open at `Open` and closed at every other announcement.
+    fn record(&mut self, state: PortState, rel: tokio::sync::oneshot::Sender<()>, pty: &Option<Pty>) {
+        if let Some(n) = pty.as_ref().and_then(|p| p.slave_fds()) {
+            if (state == PortState::Open) != (n > 0) {
+                self.notes.push(format!("fds={n}@{}", self.seen.len()));
+            }
+        }
+        self.seen.push(port_str(&state));
+        self.last = Some(state);
+        if let PortState::Wait(_) = state {
+            self.held = Some(rel);
+        } else {
+            let _ = rel.send(());
+        }
+    }
+
+    /// waits for the announcement that the last action must cause
+    async fn next(&mut self, pty: &Option<Pty>) {
+        if self.stuck {
+            return;
+        }
+        match tokio::time::timeout(Duration::from_millis(PORT_WAIT_MS), self.rx.recv()).await {
+            Ok(Some((state, rel))) => self.record(state, rel, pty),
+            Ok(None) => {
+                self.seen.push("listener-dropped".into());
+                self.stuck = true;
+            }
+            Err(_) => {
+                self.seen.push("timeout".into());
+                self.stuck = true;
+            }
+        }
+    }
+}
+
+/// pty port r<min ms>.<max ms> <script>
+///
+/// The production `spawn_rtu_client_task` on a device path that is a symbolic link (fresh
+/// directory per case) to the slave of a pseudo-terminal: link absent = `serial::open` fails, link
+/// present = it succeeds; closing the master hangs up an open port (the client reads EOF).
+/// Steps: `f` / `o` remove / create the link and let a pending wait elapse (the task, held in
+/// `update(Wait(_))`, is released and makes its next attempt), `x` removes the link and closes the
+/// master, `E` / `D` / `S` use the channel handle, `~<ms>` sleeps.  The harness waits for an
+/// announcement exactly when its own action must cause one (an attempt of an enabled channel, a
+/// disable of an enabled channel, the loss of an open port, the shutdown); whatever is announced at
+/// any time is printed in order, so an announcement too many or too few shows in the output.
+async fn run_port(tok: &[&str]) -> String {
+    let Some((rmin, rmax)) = tok[2].strip_prefix('r').and_then(|x| x.split_once('.')) else {
+        return "pty-error:usage: pty port r<min ms>.<max ms> <script>".into();
+    };
+    let (Ok(rmin), Ok(rmax)) = (rmin.parse::<u64>(), rmax.parse::<u64>()) else {
+        return "pty-error:usage: pty port r<min ms>.<max ms> <script>".into();
+    };
+    let steps: Vec<&str> = if tok[3] == "-" { vec![] } else { tok[3].split(',').collect() };
+    let nanos = std::time::SystemTime::now()
+        .duration_since(std::time::UNIX_EPOCH)
+        .map(|d| d.subsec_nanos())
+        .unwrap_or(0);
+    let dir = std::env::temp_dir().join(format!(
+        "verif-sport-{}-{}-{}",
+        std::process::id(),
+        PORT_CASE.fetch_add(1, std::sync::atomic::Ordering::Relaxed),
+        nanos
+    ));
+    if let Err(e) = std::fs::create_dir_all(&dir) {
+        return format!("pty-error:create {}: {e}", dir.display());
+    }
+    let link = dir.join("port");
+    let (tx, rx) = tokio::sync::mpsc::unbounded_channel();
+    let channel = spawn_rtu_client_task(
+        link.to_str().unwrap(),
+        SerialSettings::default(),
+        64,
+        doubling_retry_strategy(Duration::from_millis(rmin), Duration::from_millis(rmax)),
+        DecodeLevel::nothing(),
+        Some(Box::new(PortGate { tx })),
+    );
+    let mut c = PortCase {
+        rx,
+        seen: Vec::new(),
+        held: None,
+        last: None,
+        notes: Vec::new(),
+        stuck: false,
+    };
+    let mut pty: Option<Pty> = None;
+    // what the harness itself asked for through the handle
+    let mut enabled = false;
+    let mut finished = false;
+    // the task starts: Disabled
+    c.next(&pty).await;
+    let cmd_wait = Duration::from_millis(500);
+    for step in steps {
+        if c.stuck {
+            break;
+        }
+        match step {
+            "f" | "o" => {
+                if step == "f" {
+                    let _ = std::fs::remove_file(&link);
+                } else {
+                    if pty.is_none() {
+                        match Pty::open() {
+                            Ok(p) => pty = Some(p),
+                            Err(e) => {
+                                c.notes.push(format!("pty-error:{e}"));
+                                break;
+                            }
+                        }
+                    }
+                    if std::fs::symlink_metadata(&link).is_err() {
+                        if let Err(e) = std::os::unix::fs::symlink(&pty.as_ref().unwrap().slave_path, &link) {
+                            c.notes.push(format!("pty-error:symlink: {e}"));
+                            break;
+                        }
+                    }
+                }
+                // a pending wait elapses: the next attempt of the task sees the path as it is now
+                if c.held.is_some() {
+                    c.release();
+                    c.next(&pty).await;
+                }
+            }
+            "x" => {
+                let _ = std::fs::remove_file(&link);
+                let was_open = c.last == Some(PortState::Open);
+                // closing the master hangs up the slave: an open port reads EOF
+                pty = None;
+                if was_open {
+                    c.next(&pty).await;
+                }
+            }
+            "E" => {
+                let _ = tokio::time::timeout(cmd_wait, channel.enable()).await;
+                if !enabled && !finished {
+                    enabled = true;
+                    // `wait_for_enabled` returns: open attempt
+                    c.next(&pty).await;
+                }
+            }
+            "D" => {
+                let _ = tokio::time::timeout(cmd_wait, channel.disable()).await;
+                if enabled && !finished {
+                    enabled = false;
+                    c.release();
+                    c.next(&pty).await;
+                }
+            }
+            "S" => {
+                let _ = tokio::time::timeout(cmd_wait, channel.shutdown()).await;
+                if !finished {
+                    finished = true;
+                    c.release();
+                    c.next(&pty).await;
+                }
+            }
+            _ => {
+                if let Some(ms) = step.strip_prefix('~').and_then(|x| x.parse::<u64>().ok()) {
+                    tokio::time::sleep(Duration::from_millis(ms)).await;
+                } else {
+                    c.notes.push(format!("bad-step:{step}"));
+                    break;
+                }
+            }
+        }
+    }
+    // end of the case: shutdown (if the script did not ask for it), then the task must end, i.e.
+    // drop its listener; anything announced meanwhile is recorded
+    let _ = tokio::time::timeout(cmd_wait, channel.shutdown()).await;
+    c.release();
+    let deadline = Instant::now() + Duration::from_millis(PORT_WAIT_MS);
+    loop {
+        match tokio::time::timeout_at(deadline.into(), c.rx.recv()).await {
+            Ok(Some((state, rel))) => {
+                c.record(state, rel, &pty);
+                c.release();
+            }
+            Ok(None) => break,
+            Err(_) => {
+                c.notes.push("task-alive".into());
+                break;
+            }
+        }
+    }
+    if let Some(p) = pty.as_ref() {
+        if !p.wait_slave_fds(false).await {
+            c.notes.push("port-not-released".into());
+        }
+    }
+    drop(channel);
+    drop(pty);
+    let _ = std::fs::remove_dir_all(&dir);
+    let mut out = c.seen.join(",");
+    if !c.notes.is_empty() {
+        out.push(' ');
+        out.push_str(&c.notes.join(" "));
+    }
+    out
+}
+
 pub async fn run_pty(tok: &[&str]) -> String {
     match tok.get(1).copied() {
         Some("srv") if tok.len() >= 4 => run_srv(tok).await,
         Some("cli") if tok.len() >= 3 => run_cli(tok).await,
-        _ => "pty-error:usage: pty srv <units> <script> | pty cli <script>".into(),
+        Some("port") if tok.len() >= 4 => run_port(tok).await,
+        _ => "pty-error:usage: pty srv <units> <script> | pty cli <script> | pty port r<min>.<max> <script>".into(),
     }
 }
